@@ -1381,8 +1381,8 @@ class Session:
                 attr, idx = path[level]
                 stmts = getattr(parent, attr)
                 cut = idx + 1 if cut_after else idx
-                first = list(stmts[:cut]) if lifts == 0 else list(stmts[:idx]) + first
-                second = (list(stmts[cut:]) if lifts == 0 else second + list(stmts[idx + 1 :]))
+                first = list(stmts[:cut]) if level == len(path) - 1 else list(stmts[:idx]) + first
+                second = (list(stmts[cut:]) if level == len(path) - 1 else second + list(stmts[idx + 1 :]))
                 if isinstance(parent, LoopIR.For):
                     lifts += 1
                     it = parent.iter
@@ -1452,6 +1452,8 @@ class Session:
                                         w1.add(e.name)
                     if not first_mentions_it and (w1 & mod2):
                         return "invariant-location-written-then-used"
+                elif isinstance(parent, LoopIR.If):
+                    lifts += 1  # n_lifts counts every enclosing scope that is crossed
                 level -= 1
                 cut_after = False
         except Exception:
